@@ -359,12 +359,12 @@ func (r *runner) sendEarly() {
 	r.nextBody++
 	b := r.nextBody
 	delivered := make(chan bool, 1)
+	done := make(chan struct{})
 	handler, sess := r.handler, r.sess
 	r.w.mu.Lock()
 	r.w.early[tag] = func(rec wrec) {
 		wi.id, wi.hasID = rec.ID, true
 		r.bodyID[b] = rec.ID
-		done := make(chan struct{})
 		go func() {
 			defer func() { recover(); close(done) }()
 			handler.OnMessage(sess, message.RpcMessage{ID: rec.ID, Type: message.GettyRequestTypeResponse, Codec: 1,
@@ -396,11 +396,16 @@ func (r *runner) sendEarly() {
 	}
 	r.byID[wi.id] = wi
 	r.ev("D", int64(wi.id), b)
-	r.ev("R", int64(wi.id))
 	wi.delivered = append(wi.delivered, b)
 	select {
 	case res := <-wi.res:
 		r.finish(wi, res)
+		select { // both steps of the delivery are over before the next event
+		case <-done:
+			r.ev("R", int64(wi.id))
+		case <-time.After(3 * time.Second):
+			r.oracle("delivery of the reply for id %d did not return within 3 s (message processing blocked)", wi.id)
+		}
 		if res.err == nil {
 			r.ev("K", wi.k)
 		} else {
